@@ -1,0 +1,26 @@
+//go:build verif
+
+package renderer
+
+// Contracts for gvc (the /verif condition generator). Comment-only: nothing here is compiled
+// into the library; the file exists only under the build tag "verif".
+
+/*@
+// failed(w): some write to, or flush of, the buffered writer w has failed (bufio's sticky error).
+ghost var failed(w addr) bool
+
+// util.BufWriter.Flush reports the sticky error: a nil result means nothing has failed so far.
+iface util.BufWriter.Flush
+  ensures result == nil ==> !failed(recv)
+  modifies failed
+
+// ast.Walk runs the walker over the tree; for Render only this is used: it may do anything to the heap
+// and to the writer's failure state.  (Assumed contract: Walk's body is a recursion over dynamic calls.)
+func ast.Walk
+  trusted
+  modifies everything
+
+// Render: if anything failed on the way to the writer, the result is not nil (C14).
+func (*renderer).Render
+  ensures [surfaces] result == nil ==> !failed(local(writer))
+@*/
